@@ -237,8 +237,9 @@ func (cs *ContractSet) LoadFile(path, pkg string, trusted bool) error {
 			if pkg != "" {
 				key = pkg + "::" + rest
 			}
-			if _, dup := cs.Funcs[key]; dup {
-				fail(p.line, "duplicate contract for %s", key)
+			if prev, dup := cs.Funcs[key]; dup {
+				cur = prev // a later block for the same function adds clauses
+				return
 			}
 			cs.Funcs[key] = cur
 			if trusted {
